@@ -63,7 +63,14 @@ def handleRender (toks : List String) : Option String := do
   | .error e => pure ("err " ++ e)
   | .ok f => pure ("ok " ++ showLines f.neighbor ++ " || " ++ showLines f.bond ++ " || " ++ showLines f.overall)
 
-/-- `vmidx nconfig T (rows cols)*T` → `ok boxIndex pointsIndex num_particles` | `err <message>` -/
+def showSave (r : Except String Bool) : String :=
+  match r with
+  | .ok true => "saved"
+  | .ok false => "saved-other"
+  | .error _ => "raises"
+
+/-- `vmidx nconfig T (rows cols)*T` → `ok boxIndex pointsIndex num_particles saveRaw saveTrans` | `err <message>`
+(`saveRaw` / `saveTrans` ∈ saved | saved-other | raises: what the `np.save` call of that branch does) -/
 def handleIdx (toks : List String) : Option String := do
   let (ct, rest) ← takeMap parseNatDigits 2 toks
   let nconfig := ct.headD 0
@@ -77,7 +84,9 @@ def handleIdx (toks : List String) : Option String := do
   | .error e => pure ("err " ++ e)
   | .ok (b, pts, n) =>
     if n ≠ pts.length then pure "err IndexError: boolean index did not match"
-    else pure s!"ok {b} {Gen.Voro.vmPointsIndex nconfig} {n}"
+    else pure (s!"ok {b} {Gen.Voro.vmPointsIndex nconfig} {n} " ++
+      showSave (Impl.saveOutcome Gen.Voro.vmSaveRaw Gen.Voro.vmRetRaw) ++ " " ++
+      showSave (Impl.saveOutcome Gen.Voro.vmSaveTrans Gen.Voro.vmRetTrans))
 
 /-- `vmat mode N ndim transform δ V1[N*ndim*N] V2[N*ndim*N] orig[N] (M[N*N])` with `V1[(i*ndim+j)*N+k]`
 → `rows cols maxRowSum(exact) bits[rows*cols]`; mode `impl` = `Impl.volumeMatrix`/`Impl.transform`,
